@@ -22,7 +22,7 @@ type verdict int
 
 const (
 	vAccept  verdict = iota // well-formed; implementation must yield exactly the decode
-	vLenient                // well-formed MessagePack of the right types in a non-minimal width: none or exact decode
+	vLenient                // well-formed MessagePack of the right types in a non-minimal width, or maps lacking fields: none or exact decode
 	vUnspec                 // statement is silent (unknown/duplicate keys, bin where str is expected)
 	vReject                 // not a well-formed encoding: implementation must yield no messages
 )
@@ -506,6 +506,10 @@ func refDecode(b []byte) refResult {
 	switch {
 	case unspec != "":
 		res.V, res.Reason = vUnspec, unspec
+	case res.Absent:
+		// whether a map lacking fields is a well-formed message is not said: it may be refused, or read
+		// with zero values for the absent fields — never with anything else
+		res.V, res.Reason = vLenient, "fields-absent"
 	case lenient:
 		res.V, res.Reason = vLenient, "non-minimal-width"
 	default:
